@@ -23,6 +23,7 @@ TRUSTED = [
     "oracle/common/proto.ml + oracle/pattern/driver.ml (text protocol glue), OCaml 4.13.1",
     "Go harness harness/cmd/gvh-pattern/main.go + hook /repo/lib/stringlib/pattern/verif_pattern.go (VerifDump, VerifMatchRaw)",
     "Python generator/diff in lib/props/C15.py; the S side of gsub/gmatch follows lstrlib.c 5.4 (lastmatch rule)",
+    "reference oracle harness/cmd/gvh-pattern/ref/reflua.c on the system liblua5.3 (PUC-Rio Lua 5.3.6): Spec = reference on every non-malformed-stream case (distribution key reference-lua-compared)",
     "modelled not verified: Go strings/slices/regexp (gsub's \"%.\" scan), StringNormPos (init is passed already normalised), table/function replacements of gsub",
 ]
 
@@ -31,6 +32,7 @@ TOKENS = ["a", "b", ".", "%a", "%d", "[ab]", "[^a]", "[a-b]", "*", "+", "-", "?"
 QUANT = {"*", "+", "-", "?"}
 REPLS = ["x", "", "%0", "%1", "<%1>", "%%", "%2", "%1%0", "x%", "%y"]
 BIG = 1 << 40
+REF_EVERY = 3
 
 
 def hx(b):
@@ -73,11 +75,13 @@ def py_expect(tokens):
 
 
 class Case:
-    __slots__ = ("ptn", "s", "init", "repl", "maxn", "bud", "mode", "kind", "tokens")
+    __slots__ = ("ptn", "s", "init", "repl", "maxn", "bud", "mode", "kind", "tokens", "ref")
 
     def __init__(self, ptn, s, init, repl=b"x", maxn=-1, bud=BIG, mode="a", kind="enum", tokens=None):
         self.ptn, self.s, self.init, self.repl, self.maxn, self.bud, self.mode, self.kind, self.tokens = \
             ptn, s, init, repl, maxn, bud, mode, kind, tokens
+        # compared with reference PUC-Lua too?  (not the malformed stream; not descending ranges, which the manual leaves open)
+        self.ref = mode == "a" and kind != "malformed-stream" and b"[b-a]" not in ptn and len(ptn) < 200
 
     def line(self, i):
         return "k%d %s %s %d %s %d %d %s" % (i, hx(self.ptn), hx(self.s), self.init, hx(self.repl), self.maxn,
@@ -133,8 +137,8 @@ def gen_cases(ck, tier):
     subj_small = subjects(3)
     full_tok = 2                       # patterns of <= full_tok tokens: every subject of length <= 3, every init
     rate3 = (1, 12) if quick else (1, 1)      # fraction of (pattern) kept for 3 / 4 token patterns
-    per_pat3, per_pat4 = (6, 4) if quick else (40, 12)
-    rate4 = (1, 150) if quick else (1, 8)
+    per_pat3, per_pat4 = (6, 4) if quick else (40, 4)
+    rate4 = (1, 150) if quick else (1, 1)
     npat = {1: 0, 2: 0, 3: 0, 4: 0}
     for n in range(1, 5):
         for toks in itertools.product(TOKENS, repeat=n):
@@ -214,6 +218,33 @@ def run_pair(gvh, oracle, lines):
     return res["g"], res["o"]
 
 
+def build_reflua(ck):
+    """Reference oracle: PUC-Rio Lua 5.3.6 from the system's liblua5.3 (same matcher and same
+    empty-match rule as 5.4).  Optional: returns None when gcc / liblua5.3 are not available."""
+    src = os.path.join(vlib.HARNESS, "cmd", "gvh-pattern", "ref", "reflua.c")
+    out = os.path.join(vlib.WORK, "bin", "reflua")
+    if os.path.exists(out) and os.path.getmtime(out) >= os.path.getmtime(src):
+        return out
+    rc, so, se = vlib.sh(["gcc", "-O1", src, "-o", out, "-llua5.3"], timeout=120)
+    if rc != 0:
+        ck.log("reference Lua oracle not built (gcc/liblua5.3 missing?): " + se[-300:])
+        return None
+    return out
+
+
+def compare_ref(case, G, O, R, sanchor):
+    """Spec (S side of the oracle) against reference Lua.  Returns list of (field, detail)."""
+    out = []
+    for key in ("F", "M", "GM", "GS"):
+        if key == "GM" and (sanchor or case.init != 0):
+            continue          # 5.3 has no init argument for gmatch; ^ in gmatch is left open
+        sp = O.get(key, "|").split("|")[1]
+        r = R.get(key)
+        if r is not None and r != sp:
+            out.append((key, "Spec %s vs reference Lua %s" % (sp, r)))
+    return out
+
+
 def compare(ck, case, G, O, stats):
     """Returns list of (kind, field, detail) problems; kind in go-im, go-s, panic."""
     probs = []
@@ -236,6 +267,7 @@ def compare(ck, case, G, O, stats):
     if O.get("WF") != "1":
         probs.append(("go-im", "B", "the compiled pattern violates Top.wf_pattern (hypothesis of C15_api_equiv_spec): " + gb))
     stats["wf_pattern-true"] = stats.get("wf_pattern-true", 0) + (1 if O.get("WF") == "1" else 0)
+    stats["oracle-fuel>=proved-bound"] = stats.get("oracle-fuel>=proved-bound", 0) + (1 if O.get("FB") == "1" else 0)
     brp = O.get("BRP") == "1"
     beyond = case.init > len(case.s)
     # ---------------- API level
@@ -268,9 +300,7 @@ def compare(ck, case, G, O, stats):
         if g == sp:
             continue
         ids = []
-        if key == "F" and len(case.ptn) == 0 and case.init > 0:
-            ids = ["C15-find-empty-pattern-drops-init"]
-        elif key == "GM" and sanchor:
+        if key == "GM" and sanchor:
             stats["gmatch-anchored-unobserved"] = stats.get("gmatch-anchored-unobserved", 0) + 1
             continue
         elif key == "GS":
@@ -289,9 +319,24 @@ FN = {"F": "string.find", "M": "string.match", "GM": "string.gmatch", "GS": "str
 THEOREMS = ["C15_api_equiv_spec", "C15_machine_equiv_spec_find", "C15_machine_equiv_spec_at", "C15_run_budget", "C15_masks_correct", "C15_gsub_count_refuted"]
 
 
-def evaluate(ck, gvh, oracle, cases, stats, report=True):
+def evaluate(ck, gvh, oracle, cases, stats, report=True, reflua=None):
     lines = [c.line(i) for i, c in enumerate(cases)]
+    refres = {}
+    refthread = None
+    if reflua:
+        # the reference interpreter is the slow side: corpus + every 3rd (quick) / 4th (thorough) eligible case
+        reflines = [lines[i] for i, c in enumerate(cases) if c.ref and (c.kind == "corpus" or i % REF_EVERY == 0)]
+
+        def runref():
+            rc, out, err = vlib.run_lines(reflua, [], reflines, timeout=3000)
+            for l in out:
+                rid, R = fields(l)
+                refres[rid] = R
+        refthread = threading.Thread(target=runref)
+        refthread.start()
     (rc1, gout, e1), (rc2, oout, e2) = run_pair(gvh, oracle, lines)
+    if refthread:
+        refthread.join()
     if rc1 != 0 or len(gout) != len(lines):
         ck.violation("gvh-pattern crashed or produced %d/%d lines" % (len(gout), len(lines)),
                      {"kind": "crash", "stderr": e1[-2000:], "case": cases[min(len(gout), len(cases) - 1)].desc()})
@@ -311,6 +356,10 @@ def evaluate(ck, gvh, oracle, cases, stats, report=True):
             stats["model-out-of-fuel"] = stats.get("model-out-of-fuel", 0) + 1
             continue
         probs, hits, built = compare(ck, c, G, O, stats)
+        if built and gid in refres:
+            stats["reference-lua-compared"] = stats.get("reference-lua-compared", 0) + 1
+            for fld, det in compare_ref(c, G, O, refres[gid], G.get("B", "").split(":")[2][0] == "1"):
+                probs.append(("s-ref", fld, det))
         nontriv = built and (G.get("MM", "nil").startswith("c") or G.get("MS", "nil").startswith("c"))
         ck.case(c.canon(), nontriv or not built)
         ck.count("kind:" + c.kind)
@@ -417,10 +466,13 @@ def run(tier, seed):
     if oracle is None:
         ck.violation("oracle (extracted model) does not build", {"kind": "build"}, no_input=True)
         return ck.finish("n/a", TRUSTED, [])
+    global REF_EVERY
+    REF_EVERY = 3 if tier == "quick" else 4
     cases, npat = gen_cases(ck, tier)
     ck.log("cases: %d (patterns by token count: %s)" % (len(cases), npat))
     stats = {}
-    probs, gout, oout = evaluate(ck, gvh, oracle, cases, stats)
+    reflua = build_reflua(ck)
+    probs, gout, oout = evaluate(ck, gvh, oracle, cases, stats, reflua=reflua)
     ck.log("evaluated; %d problems" % len(probs))
     for k, v in stats.items():
         ck.count(k, v)
@@ -455,6 +507,14 @@ def run(tier, seed):
                       "case": small.desc(), "case_line": small.line(0), "impl": g[0] if g else None, "model": o[0] if o else None,
                       "original_case": cases[i].desc(), "count_of_such_differences": len([1 for _, q in go_s if q[1] == p[1]]),
                       "theorem": "Spec (Pattern/Spec.v) is the manual's matcher; C15_spec_* state its sanity"})
+    s_ref = [(i, p) for i, p in probs if p[0] == "s-ref"]
+    if s_ref:
+        i, p = s_ref[0]
+        ck.violation("the specification model Pattern/Spec.v + Drivers.v (S) disagrees with reference PUC-Lua 5.3.6 on %s: %s" %
+                     (FN.get(p[1], p[1]), p[2][:200]),
+                     {"kind": "S!=reference", "field": p[1], "detail": p[2], "case": cases[i].desc() if i >= 0 else None,
+                      "case_line": cases[i].line(0) if i >= 0 else None, "differences": len(s_ref)}, no_input=True)
+    ck.cov["spec_vs_reference_lua_differences"] = len(s_ref)
     if go_im and not go_s:
         i, p = go_im[0]
         c = cases[i] if i >= 0 else None
